@@ -2,7 +2,8 @@ import TarpcModel.Lemmas.ClientFlowTransport
 /-
 No spin (C14, client): with the fixed `ensure_writeable` a dispatch poll emits `Obs.spin` only if `run`'s
 fuel runs out, and every iteration of `run` that loops consumes an inbound item, a queued request, a queued
-cancellation or an armed timer — so fuel above `runMeasure s` suffices.
+cancellation or an armed timer — so fuel above `runMeasure s` suffices, and the model's `runFuel s = runMeasure s + 4`
+(`Client/Model.lean`) never runs out (`runMeasure_lt_runFuel`).
 -/
 namespace TarpcModel.Client.Flow
 
@@ -251,7 +252,10 @@ theorem pqRelease_frameQ (s : St) : FrameQ s (pqRelease s) := by
 theorem removeTimer_sizes (s : St) (key : Nat) :
     (removeTimer s key).pq = s.pq ∧ (removeTimer s key).cq = s.cq ∧ (removeTimer s key).timers.len ≤ s.timers.len := by
   unfold removeTimer; split
-  · rename_i q w h; exact ⟨rfl, rfl, DelayQ.remove_len h⟩
+  · rename_i q w h
+    simp only; split
+    · exact ⟨by simp, by simp, by rw [wakeDispatch_timers]; exact DelayQ.remove_len h⟩
+    · exact ⟨rfl, rfl, DelayQ.remove_len h⟩
   · exact ⟨rfl, rfl, Nat.le_refl _⟩
 
 theorem completeRequest_sizes (s : St) (id : Nat) (o : Outcome) :
@@ -347,7 +351,10 @@ theorem insertRequest_sizes {s s' : St} {now : Nat} {r : DReq} (h : insertReques
   · cases h; exact ⟨rfl, rfl, Nat.le_succ _⟩
   · split at h
     · cases h; exact ⟨rfl, rfl, Nat.le_succ _⟩
-    · rename_i hq; cases h; exact ⟨rfl, rfl, DelayQ.insert_len hq⟩
+    · rename_i hq; cases h
+      split
+      · exact ⟨by simp, by simp, by rw [wakeDispatch_timers]; exact DelayQ.insert_len hq⟩
+      · exact ⟨rfl, rfl, DelayQ.insert_len hq⟩
 
 theorem pollExpired_sizes (s : St) (now : Nat) :
     (pollExpired s now).1.pq = s.pq ∧ (pollExpired s now).1.cq = s.cq ∧
@@ -632,5 +639,9 @@ theorem run_no_spin (fuel : Nat) (s : St) (now : Nat) (hel : s.ensureLoop = fals
       rw [h1] at pr; try dsimp only at pr
       have pw := pumpWrite_mstep s1 now (pr.1.el.trans hel); rw [h2] at pw; try dsimp only at pw
       exact (pr.1.trans pw.1).spin
+
+/-- The fuel `pollDispatchCore` gives `run` exceeds the measure: `runFuel s = runMeasure s + 4`. -/
+theorem runMeasure_lt_runFuel (s : St) : runMeasure s < runFuel s := by
+  unfold runMeasure runFuel; omega
 
 end TarpcModel.Client.Flow
